@@ -72,6 +72,14 @@ CHECKS["C14"] = dict(
    note="Trusted: Lean kernel, Model/BoxConc.lean, the yield hooks and the controlled scheduler. Assumed: Go mutex semantics; no clock ticks during the runs; limits not exceeded. Partial: per-sender order (known finding).",
    technique="Lean 4 proof of a conservation invariant over all interleavings + exhaustive controlled-scheduler correspondence on the real code")
 
+CHECKS["C19"] = dict(
+   text="Lean 4 theorems decided by kernel evaluation over tables regenerated on every run from the adapters and from the pinned tss-lib sources: receiver-side broadcast classification agrees with the library's routing flag for every message type, "
+        "every library type is covered and nothing is stale, broadcast-class types of one phase get distinct rounds, all rounds fit 7 bits; plus sender_mismatch_dropped, signature_only_for_requested_digest and hashToInt_spec (all digests, all lengths). "
+        "Tie: regenerated tables + complete EdDSA/ECDSA runs comparing ClassifyMsg with the routing flag of every captured message.",
+   design="4/C19",
+   note="Trusted: Lean kernel, the table extractor (adapters + module-cache tss-lib), harness. Assumed: URL naming scheme (cross-checked on captured messages); tss-lib rounds not modelled; the sender-mismatch branch is unreachable through the wire format.",
+   technique="Lean 4 kernel-decided theorems over regenerated tables + differential runs of the real adapters")
+
 NOT_YET = {}
 
 def main():
